@@ -128,6 +128,24 @@ theorem c20_resolve_bracket_dead (a t na h p : Str) (hp : Parse a t na h p) : h 
   have := (hostPort_noSq hhp).1 91 (by simp [e, bracketAny])
   simp at this
 
+/-- the error branches of `Host` and `Port` after a non-empty `NetworkAddress` are dead: a network address an
+accessor returns always splits (`if e != nil { return "" }` in both cannot be taken) -/
+theorem c20_host_port_error_dead (a na : Str) (h : networkAddress a = some na) (hne : na ≠ []) :
+    (splitHostPort na).isSome := by
+  cases hv : valid a with
+  | false =>
+    have := (c20_accessors_invalid a hv).2.1
+    rw [this] at h
+    simp at h
+    exact absurd h hne
+  | true =>
+    obtain ⟨t, na', ho, po, hp⟩ := c20_valid_has_parse a hv
+    obtain ⟨_, hna, _, _, _, _, hshp⟩ := c20_accessors a t na' ho po hv hp
+    rw [hna] at h
+    simp at h
+    subst h
+    simp [hshp]
+
 /-- **what `Resolve` returns for a valid address**: an IP-literal host as it is, without consulting the DNS; a host
 name (not an IP literal) whatever the lookup answers first, or `""` when it fails; `""` for the empty host — and
 the DNS is consulted exactly for host names, with the host as the question. -/
@@ -558,8 +576,9 @@ open Gen.Rt
 
 /-- the constants of address.go as translated are the model's -/
 theorem c20_gen_consts :
-    Gen.C20.PlainTCP = tcp ∧ Gen.C20.TLS = tls ∧ Gen.C20.Local = localT ∧ Gen.C20.InvalidConnType = wrong :=
-  ⟨rfl, rfl, rfl, rfl⟩
+    Gen.C20.PlainTCP = tcp ∧ Gen.C20.TLS = tls ∧ Gen.C20.Local = localT ∧ Gen.C20.InvalidConnType = wrong ∧
+    Gen.C20.typeAddressSep = sep :=
+  ⟨rfl, rfl, rfl, rfl, rfl⟩
 
 /-- `connType` (address.go) as translated = `connTypeOf` -/
 theorem c20_gen_connType_eq (t : Str) : Gen.C20.connType t = connTypeOf t := by
@@ -624,7 +643,7 @@ theorem c20_gen_validHostname_eq (s : Str) : Gen.C20.validHostname s = some (val
 the model's `valid` -/
 theorem c20_gen_Address_Valid_eq (a : Str) : Gen.C20.Address_Valid a = some (valid a) := by
   unfold Gen.C20.Address_Valid valid
-  simp only [c20_gen_connType_eq, c20_gen_validHostname_eq, c20_gen_consts.2.2.2]
+  simp only [c20_gen_connType_eq, c20_gen_validHostname_eq, c20_gen_consts.2.2.2.1]
   generalize split a = vals
   match vals with
   | [t, na] =>
@@ -653,7 +672,7 @@ theorem c20_gen_Address_Valid_eq (a : Str) : Gen.C20.Address_Valid a = some (val
 /-- `Address.ConnType` as translated = the model's `connType` (`none` = index panic on both sides) -/
 theorem c20_gen_Address_ConnType_eq (a : Str) : Gen.C20.Address_ConnType a = connType a := by
   unfold Gen.C20.Address_ConnType connType
-  simp only [c20_gen_Address_Valid_eq, c20_gen_connType_eq, c20_gen_consts.2.2.2]
+  simp only [c20_gen_Address_Valid_eq, c20_gen_connType_eq, c20_gen_consts.2.2.2.1]
   cases valid a <;> simp [idx]
   cases (split a)[0]? <;> simp
 
@@ -846,6 +865,10 @@ theorem c20_gen_Address_Public_eq (lk : Str → Option (List Str)) (a : Str) :
   cases networkAddressResolved lk a with
   | none => simp
   | some s => cases hp : privateRe s <;> simp [hp]
+
+/-- `Address.String` and `NewAddress` as translated -/
+theorem c20_gen_Address_String_NewAddress_eq (a t na : Str) :
+    Gen.C20.Address_String a = a ∧ Gen.C20.NewAddress t na = newAddress t na := ⟨rfl, rfl⟩
 
 end GenEq
 
